@@ -1109,10 +1109,11 @@ def run(ck: Check) -> None:
     ck.tie_cases = []
     ck.prove()
     ck.assumptions += [
-        "Python's name resolution (module scope, class scope, deferred evaluation of annotations under `from __future__ import annotations`) is the static analysis of vlib/props/c02.py, cross-checked by really importing the module",
-        "pydantic 2.13 / pydantic.v1 / dataclasses / typing.get_type_hints decide whether forward references resolve; msgspec output is analysed statically only (msgspec is not installed)",
+        "Python's name resolution (module scope, class scope first inside a class body, deferred evaluation of annotations under `from __future__ import annotations`, lambda bodies run later in module scope, operands evaluated left to right before the operation) is what vlib/props/c02.py scope_analysis, vlib/classscope.py and lean/Dcg/Model/ClassScope.lean state; all three are compared with each other and with really importing the module on every run",
+        "who evaluates annotations in the class namespace: pydantic v2 at class creation (class's own name on top; NameError = forward reference, re-evaluated after the members' values are deleted), dataclass consumers inspect.get_annotations(eval_str=True) / pydantic.TypeAdapter (typing.get_type_hints only for builtin names), nobody for pydantic v1 and TypedDict; msgspec's own resolution is not claimed (msgspec is not installed: its output is judged statically, by what plain class-body evaluation makes certain)",
+        "pydantic 2.13 / pydantic.v1 / dataclasses / typing.get_type_hints / inspect.get_annotations decide whether forward references resolve and what the members resolve to",
         "only Python 3.12 executes the output; other target versions are generated and analysed but run on 3.12",
-        "DataType.type_hint has been evaluated before DataType.imports is read (DataModelFieldBase.imports does so); is_func/kwargs and Field()/Annotated imports of the field classes are outside Model.Imports",
+        "DataType.type_hint has been evaluated before DataType.imports is read (DataModelFieldBase.imports does so); is_func/kwargs of constrained types are outside Model.Imports (covered by the field/model imports campaign on the real classes)",
     ]
     campaign_histories(ck, 400 if quick else 4000)
     campaign_prune(ck, 200 if quick else 3000)
